@@ -895,8 +895,15 @@ class DFA:
         # If the caller wants to chain actions into a DFA which potentially matches the empty string, we have to place the actions onto 
         # transitions going into the sub_states, instead of on transitions coming out of them that we generate. This adds more opportunities
         # for "unable to schedule strict"-type errors, but avoids missing actions in these cases.
+        entry_chain_actions = []
         if chain_actions and chained_dfa.starting_state in chained_dfa.accepting_states:
-            self.chain_actions_into(chain_actions, sub_states)
+            if mark_accept and self.starting_state in sub_states and not isinstance(self.starting_state, DFConditionPoint):
+                # Our own starting state is entered without a transition, so there is nothing to place the actions on for it: they go on
+                # everything that leaves it instead (see the end of this function).
+                entry_chain_actions = chain_actions
+                self.chain_actions_into(chain_actions, [x for x in sub_states if x is not self.starting_state])
+            else:
+                self.chain_actions_into(chain_actions, sub_states)
             chain_actions = [] # Since the actions are already handled, don't try to add them to new transitions.
 
         # Check for ambiguity: if any transitions added to a sub_state try to redirect a valid character a different valid
@@ -982,6 +989,8 @@ class DFA:
                 # Create transition to add
                 culled_transition.on_values = list(relevant_values | irrelevant_values)
                 culled_transition.attach(*chain_actions, prepend=True)
+                if entry_chain_actions and sub_state is self.starting_state and not transition.error_handling:
+                    culled_transition.attach(*entry_chain_actions, prepend=True)
                 culled_chained_transitions.append(culled_transition)
 
             for new_transition in culled_chained_transitions:
@@ -1005,6 +1014,21 @@ class DFA:
 
             for state in chained_dfa.accepting_states:
                 self.mark_accepting(state)
+
+        if entry_chain_actions:
+            # Passing straight through the starting state (nothing of either part matched) must still run the actions: leave it through
+            # fallthroughs which carry them, as chain_actions_at_end does.
+            start = self.starting_state
+            passed_through = DFState()
+            self.add(passed_through)
+            while start in self.accepting_states:
+                self.accepting_states.remove(start)
+            for trans in start.transitions:
+                if trans.error_handling:
+                    trans.to(passed_through).fallthrough().handles_else(False).attach(*entry_chain_actions)
+            if start[DFTransition.Else] is None:
+                start.transition(DFTransition([DFTransition.Else]).to(passed_through).fallthrough().attach(*entry_chain_actions))
+            self.mark_accepting(passed_through)
 
     def chain_actions_into(self, actions: Iterable["Action"], target_states: Iterable[DFState]):
         """
